@@ -4,6 +4,7 @@ import z3
 from pyvc import smt, views
 from pyvc.smt import I
 from pyvc.values import *          # noqa
+from pyvc.values import eqv, veq   # noqa
 from pyvc.contract import *        # noqa
 from pyvc.views import View, AbsView, AX
 from contracts import spec
@@ -190,7 +191,7 @@ def _unbatch_clauses():
         j, t = S.ks['0'], S.ks['0.0']
         return [('unbatch:yield-position', S.out_n == SB(j) + t),
                 ('unbatch:yield-inside-batch', z3.And(t >= 0, t < BLEN(smt.VAL(d, j)), j < smt.N(d))),
-                ('unbatch:yield-value', veq(value, ObjV(BELEM(smt.VAL(d, j), t))))]
+                ('unbatch:yield-value', eqv(value, ObjV(BELEM(smt.VAL(d, j), t))))]
 
     def post(S, o):
         d = F(S)['input_dataset'].t
@@ -254,7 +255,7 @@ def _filter_clauses(with_key):
         d, f = fl['input_dataset'].t, fl['filter_function'].t
         j = S.ks['0' if with_key else '1']
         exp = TupleV([KeyV(AbsView(d).key(j)), ObjV(smt.VAL(d, j))]) if with_key else ObjV(smt.VAL(d, j))
-        return [('filter:yield-is-passing-input-example', z3.And(j < smt.N(d), _passes(f, d, j), veq(value, exp))),
+        return [('filter:yield-is-passing-input-example', z3.And(j < smt.N(d), _passes(f, d, j), eqv(value, exp))),
                 ('filter:yield-position', S.out_n == _cnt_pass(f, d)(j))]
 
     def post(S, o):
@@ -291,7 +292,7 @@ def _filter_getitem_post(S, o):
     x = smt.VAL(d, p)
     if o.kind == 'return':
         return [('filter-key:value', z3.And(p >= 0, z3.Not(smt.RAISES(d, p)), _passes(f, d, p),
-                                            veq(o.value, ObjV(x))))]
+                                            eqv(o.value, ObjV(x))))]
     if o.kind == 'raise':
         return [('filter-key:exception',
                  z3.Or(z3.And(p >= 0, smt.RAISES(d, p), o.exc.t == smt.EXC(d, p)),
@@ -358,7 +359,7 @@ def _catch_clauses(with_key):
         d = _frozen(S)
         j = S.ks[ordl]
         exp = TupleV([KeyV(AbsView(d).key(j)), ObjV(smt.VAL(d, j))]) if with_key else ObjV(smt.VAL(d, j))
-        return [('catch:yield-is-surviving-example', z3.And(j < smt.N(d), z3.Not(smt.RAISES(d, j)), veq(value, exp))),
+        return [('catch:yield-is-surviving-example', z3.And(j < smt.N(d), z3.Not(smt.RAISES(d, j)), eqv(value, exp))),
                 ('catch:yield-position', S.out_n == _cnt_kept(E, d)(j))]
 
     def post(S, o):
